@@ -101,6 +101,11 @@ def run_harness(driver, scenarios, name, timeout=1200, env_extra=None, args=None
             if sid not in groups:
                 groups[sid] = []
                 order.append(sid)
+            if e.get("ev") == "Note" and e.get("what") == "retry-after-alarm":
+                # the scenario ran into its alarm once and was started again: what the aborted attempt recorded is dropped
+                RETRIED.append((driver, name, sid))
+                groups[sid] = []
+                continue
             groups[sid].append(e)
     # scenarios the driver did not run because three earlier ones had hung (those three are findings)
     global NOT_RUN
@@ -118,6 +123,7 @@ def run_harness(driver, scenarios, name, timeout=1200, env_extra=None, args=None
 
 NOT_RUN = set()
 HUNG_RUNS = []
+RETRIED = []
 
 
 # ---------------------------------------------------------------- findings
@@ -219,6 +225,8 @@ class Run:
         if HUNG_RUNS and not self.violations and not self.known_hits:
             # cannot happen if every trace specification rejects a hung scenario; never report "held" then
             raise ToolError("scenarios hung (%s) but no violation was derived" % (HUNG_RUNS,))
+        if RETRIED:
+            self.extra["scenarios_retried_after_alarm"] = [{"driver": d, "run": n, "scenario": s} for d, n, s in RETRIED]
         if HUNG_RUNS:
             self.extra["hung_runs"] = [{"driver": d, "run": n, "hung": h, "not_run": k} for d, n, h, k in HUNG_RUNS]
         wall = time.time() - self.t0
